@@ -12,6 +12,8 @@ package parse
 //@   requires typing: forall i int {c.Meta[i]} :: 0 <= i && i < len(c.Meta) ==> c.Meta[i] != nil
 //@   at call (*go/token.File).AddLineColumnInfo assert [C19] scratch-line-mapped-to-its-patch-position: arg1 == line.Offset && arg2 == ret("(*go/token.FileSet).Position", 0).Filename && arg3 == ret("(*go/token.FileSet).Position", 0).Line && arg4 == ret("(*go/token.FileSet).Position", 0).Column
 //@   at call (*go/token.File).AddLineColumnInfo set mappedLines = mappedLines + 1
+//@   at call go.uber.org/multierr.Combine assert [C16,C19] the-diagnostics-handed-on-are-all-the-parser-collected: arg0 == parser.errors
+//@   ensures [C16,C19] what-is-returned-is-what-the-declarations-parsed-to-and-every-diagnostic: m == ret("(*parse.metaParser).parse", 0) && err == ret("go.uber.org/multierr.Combine", 0)
 //@   ensures [C19] every-scratch-line-is-mapped: mappedLines == old(mappedLines) + len(ret("parse/section.ToBytes", 0, 1))
 //@   loop 0
 //@     invariant [C19] mappedLines == old(mappedLines) + #k
